@@ -312,7 +312,7 @@ func c06sSchedule(t *testing.T, rep *vfReport, r *vfRng, rounds int) (ops, impl 
 func TestVerifC06Store(t *testing.T) {
 	rep := vfNewReport("C06", "store level: schedules of write requests, reader start/stop on external read-only connections and Store.Snapshot calls on real single-node stores, then a restart forced to rebuild from the snapshot store; non-trivial when at least one snapshot was blocked (busy or all-moved-not-truncated); distinct by outcome-annotated schedule")
 	defer rep.Write()
-	r := vfNewRng(606)
+	r := ssmRng(606)
 	n := vfScale(3, 40)
 	var allOps, allImpl [][]string
 	for h := 0; h < n; h++ {
